@@ -1,5 +1,1025 @@
 package main
 
-import "cvssmc/internal/ev"
+// GRAPH engine (DESIGN.md §5.2): explicit-state exploration of the decoders.  States are real
+// decoder objects (reflective dump of the receiver after Decode(prefix)) plus the decoder's
+// residue; every (state, token) transition is executed on the real Decode and judged by the
+// reference recogniser.  Also the stateless string sets and the character-level edit balls.
 
-func graphC01(r *ev.Run, thorough bool) {}
+import (
+	"crypto/sha256"
+	"fmt"
+	"sort"
+	"strings"
+	"sync"
+	"sync/atomic"
+
+	"cvssmc/internal/dump"
+	"cvssmc/internal/ev"
+	"cvssmc/internal/lang"
+	"cvssmc/internal/lib"
+	"cvssmc/internal/spec"
+)
+
+// gprops selects the oracles applied to every executed string.
+type gprops struct {
+	accept   bool  // C07/C08: err==nil iff the reference accepts
+	classify bool  // C11: exactly one admissible sentinel, nil object
+	total    bool  // C12: no panic, object xor error, nil receiver agrees, left-behind objects sane
+	dec      props // oracles for accepted vectors (C01, C09, C10, C14 …); zero value = none
+	decOn    bool
+	order    bool // C09: observables depend only on the token set (and explicit X == omitted)
+}
+
+type gstats struct {
+	strings, accepted, rejected int64
+	classes                     sync.Map // error class -> count (*int64)
+	modelObs                    sync.Map // model key -> observables (order independence)
+	normObs                     sync.Map // X-normalised model key -> observables
+	orderEvents                 int64
+	leftSeen                    sync.Map
+	leftBehind                  int64
+	sample                      sync.Once
+}
+
+func (g *gstats) class(c string) {
+	v, _ := g.classes.LoadOrStore(c, new(int64))
+	atomic.AddInt64(v.(*int64), 1)
+}
+
+func decoderName(ver, level int) string {
+	return fmt.Sprintf("v%d %s decoder", ver, spec.LevelNames[level])
+}
+
+func strCase(ver, level int, s string) map[string]any {
+	if len(s) > 300 {
+		return map[string]any{"cvss": ver, "decoder": spec.LevelNames[level], "vector_prefix": s[:300], "vector_len": len(s)}
+	}
+	return map[string]any{"cvss": ver, "decoder": spec.LevelNames[level], "vector": s}
+}
+
+func strTest(ver, level int, s string) string {
+	pkg := "v3"
+	if ver == 2 {
+		pkg = "v2"
+	}
+	ctor := []string{"NewBase", "NewTemporal", "NewEnvironmental"}[level]
+	if len(s) > 400 {
+		return ""
+	}
+	return fmt.Sprintf("m, err := %s.%s().Decode(%q)\nt.Log(m, err)", pkg, ctor, s)
+}
+
+// judge executes s on a fresh constructor object of decoder (ver, level), applies the oracles
+// of G and returns the receiver (for state dumps) and whether the library accepted.
+func judge(r *ev.Run, G *gprops, gs *gstats, ver, level int, s string) (recv any, accepted bool) {
+	recv = lib.New(ver, level)
+	obj, err, pan := lib.Decode(recv, s)
+	atomic.AddInt64(&gs.strings, 1)
+	v := lang.Classify(ver, level, s)
+	accepted = err == nil && pan == ""
+	if accepted {
+		atomic.AddInt64(&gs.accepted, 1)
+	} else {
+		atomic.AddInt64(&gs.rejected, 1)
+	}
+	if pan != "" {
+		if G.total || G.accept {
+			r.Violate(ev.Violation{Kind: "decode-panics", Case: strCase(ver, level, s), Observed: "panic: " + pan, Expected: "an error or an object", GoTest: strTest(ver, level, s)})
+		}
+		return recv, false
+	}
+	cls := lib.Classes(err)
+	gs.class(strings.Join(cls, "+"))
+	if G.total {
+		if (obj == nil) == (err == nil) {
+			r.Violate(ev.Violation{Kind: "object-xor-error", Case: strCase(ver, level, s), Observed: fmt.Sprintf("object nil=%v, error nil=%v", obj == nil, err == nil), Expected: "exactly one of object and error", GoTest: strTest(ver, level, s)})
+		}
+		if err != nil {
+			// one check per distinct left-behind object state
+			h := sha256.Sum256([]byte(dump.Of(recv)))
+			if _, dup := gs.leftSeen.LoadOrStore(h, true); !dup {
+				atomic.AddInt64(&gs.leftBehind, 1)
+				checkLeftBehind(r, ver, level, s, recv)
+			}
+		}
+	}
+	if G.accept {
+		if (err == nil) != v.Accept {
+			exp := "accepted"
+			if !v.Accept {
+				exp = "rejected: " + strings.Join(v.DefectList(), ", ")
+			}
+			r.Violate(ev.Violation{Kind: "acceptance", Case: strCase(ver, level, s), Observed: fmt.Sprintf("err=%v", err), Expected: exp, GoTest: strTest(ver, level, s)})
+		}
+		if err == nil && obj != nil {
+			if o := lib.Observe(obj); o.GetErr != "nil" || o.Panic != "" {
+				r.Violate(ev.Violation{Kind: "accepted-object-unusable", Case: strCase(ver, level, s), Observed: o.String(), Expected: "GetError()==nil"})
+			}
+		}
+	}
+	if G.classify && err != nil && !v.Accept {
+		switch {
+		case len(cls) != 1:
+			r.Violate(ev.Violation{Kind: "sentinel-count", Case: strCase(ver, level, s), Observed: fmt.Sprintf("error %q matches %v", err.Error(), cls), Expected: "exactly one exported sentinel", GoTest: strTest(ver, level, s)})
+		case !v.Defects[cls[0]]:
+			r.Violate(ev.Violation{Kind: "wrong-defect", Case: strCase(ver, level, s), Observed: cls[0], Expected: "one of " + strings.Join(v.DefectList(), ", ") + " (defects present in the input)", GoTest: strTest(ver, level, s)})
+		}
+		if obj != nil {
+			r.Violate(ev.Violation{Kind: "object-with-error", Case: strCase(ver, level, s), Observed: "non-nil object together with an error", Expected: "nil object"})
+		}
+	}
+	if accepted && v.Accept && obj != nil {
+		c := &dcase{ver: ver, level: level, s: s, tok: v.Tokens, verLabel: v.Ver}
+		if G.decOn {
+			evalDecoded(r, G.dec, nil, c)
+		}
+		if G.order {
+			checkOrder(r, gs, c, obj)
+		}
+	}
+	return recv, accepted
+}
+
+// checkOrder: all paths to one token set give identical observables; explicit X == omitted.
+func checkOrder(r *ev.Run, gs *gstats, c *dcase, obj any) {
+	obs := observables(obj)
+	keyOf := func(tok map[string]string) string {
+		ks := make([]string, 0, len(tok))
+		for k, v := range tok {
+			ks = append(ks, k+":"+v)
+		}
+		sort.Strings(ks)
+		return fmt.Sprintf("%d/%d/%s/%s", c.ver, c.level, c.verLabel, strings.Join(ks, "/"))
+	}
+	type seen struct{ obs, s string }
+	if prev, loaded := gs.modelObs.LoadOrStore(keyOf(c.tok), seen{obs, c.s}); loaded && prev.(seen).obs != obs {
+		atomic.AddInt64(&gs.orderEvents, 1)
+		r.Violate(ev.Violation{Kind: "order-dependence", Case: with(c.m(), "other_order", prev.(seen).s), Observed: obs, Expected: prev.(seen).obs + "  (same tokens in another order)"})
+	}
+	if c.ver == 3 {
+		norm := map[string]string{}
+		for k, v := range c.tok {
+			if m := spec.Find(3, k); m.Level > 0 && v == m.NDCode() {
+				continue
+			}
+			norm[k] = v
+		}
+		if prev, loaded := gs.normObs.LoadOrStore(keyOf(norm), seen{obs, c.s}); loaded && prev.(seen).obs != obs {
+			r.Violate(ev.Violation{Kind: "explicit-X-differs-from-omitted", Case: with(c.m(), "other", prev.(seen).s), Observed: obs, Expected: prev.(seen).obs})
+		}
+	}
+}
+
+// checkLeftBehind: C12(b) — the receiver of a failed decode answers every observer without
+// panicking; if a metric of the queried level (or the version) still holds its unknown/invalid
+// value, validity and encoding report an error and the score is 0.
+func checkLeftBehind(r *ev.Run, ver, level int, s string, recv any) {
+	for lv := 0; lv <= level; lv++ {
+		view := lib.Sub(recv, lv)
+		if lib.IsNil(view) {
+			continue
+		}
+		o := lib.Observe(view)
+		if o.Panic != "" {
+			r.Violate(ev.Violation{Kind: "observer-panics-after-failed-decode", Case: with(strCase(ver, level, s), "view", spec.LevelNames[lv]), Observed: o.Panic, Expected: "no panic"})
+			continue
+		}
+		if incompleteObject(view, ver, lv) && (o.GetErr == "nil" || o.EncErr == "nil" || o.Score != 0) {
+			r.Violate(ev.Violation{Kind: "fabricated-result", Case: with(strCase(ver, level, s), "view", spec.LevelNames[lv]), Observed: o.String(), Expected: "GetError and Encode report an error, Score()==0 (a metric still holds its unknown/invalid value)"})
+		}
+	}
+}
+
+// incompleteObject: the version or a metric of the queried level holds its unknown/invalid value
+// (v2: a base metric, or a metric of a group that is present).
+func incompleteObject(o any, ver, level int) bool {
+	if ver == 3 && lib.V3Ver(o) == "unknown" {
+		return true
+	}
+	for _, m := range spec.UpTo(ver, level) {
+		en := lib.EnumOf(ver, m.Name)
+		v, ok := lib.Field(o, m.Name)
+		if !ok {
+			return true
+		}
+		if v != en.Unknown {
+			continue
+		}
+		if ver == 2 && m.Level > 0 && lib.IsEmpty(o, m.Level) {
+			continue
+		}
+		return true
+	}
+	return false
+}
+
+// ---------------------------------------------------------------------------------------------
+// token alphabet
+
+type token struct {
+	text  string
+	valid bool // a specification name:code of the decoder's level
+}
+
+func lower(s string) string { return strings.ToLower(s) }
+
+// alphabet builds the token alphabet of decoder (ver, level): every name:code of the level; per
+// name the invalid values Q, lower-cased code, doubled code and X/ND for base metrics; foreign
+// names; malformed tokens.  Simplest first.
+func alphabet(ver, level int) []token {
+	var a []token
+	for _, m := range spec.UpTo(ver, level) {
+		for _, c := range m.Codes {
+			a = append(a, token{m.Name + ":" + c.Code, true})
+		}
+	}
+	for _, m := range spec.UpTo(ver, level) {
+		first := m.Codes[0].Code
+		bad := []string{"Q", lower(first), first + first}
+		if m.Level == 0 {
+			if ver == 3 {
+				bad = append(bad, "X")
+			} else {
+				bad = append(bad, "ND")
+			}
+		}
+		for _, b := range bad {
+			if !m.Has(b) {
+				a = append(a, token{m.Name + ":" + b, false})
+			}
+		}
+	}
+	// foreign names: higher-level names with valid codes, the other version's names, case variants
+	for _, m := range spec.Metrics(ver) {
+		if m.Level > level {
+			a = append(a, token{m.Name + ":" + m.Codes[0].Code, false})
+		}
+	}
+	other := 2
+	if ver == 2 {
+		other = 3
+	}
+	for _, m := range spec.Metrics(other) {
+		if d := spec.Find(ver, m.Name); d == nil {
+			a = append(a, token{m.Name + ":" + m.Codes[0].Code, false})
+		}
+	}
+	f := spec.Metrics(ver)[0]
+	for _, t := range []string{lower(f.Name) + ":" + f.Codes[0].Code, "ZZ:N", " " + f.Name + ":" + f.Codes[0].Code, f.Name + " :" + f.Codes[0].Code, "CVSS:3.1"} {
+		a = append(a, token{t, false})
+	}
+	for _, t := range []string{"", ":", f.Name, f.Name + ":", ":" + f.Codes[0].Code, f.Name + ":" + f.Codes[0].Code + ":" + f.Codes[0].Code, f.Name + "::" + f.Codes[0].Code} {
+		a = append(a, token{t, false})
+	}
+	return a
+}
+
+// ---------------------------------------------------------------------------------------------
+// explicit-state search
+
+type graphCfg struct {
+	name       string
+	ver, level int
+	starts     []string // initial prefixes (complete strings; v3: begin with the version token)
+	alphabet   []token
+	// expand decides from the model whether a live state's successors are explored.
+	expand func(m *lang.Model) bool
+}
+
+type gresult struct {
+	states, live, transitions, accepting, terminal, boundary int64
+	depth                                                    int
+}
+
+func splitPath(ver int, s string) []string {
+	if s == "" && ver == 2 {
+		return nil
+	}
+	t := strings.Split(s, "/")
+	if ver == 3 {
+		return t[1:]
+	}
+	return t
+}
+
+func appendTok(ver int, path, tok string) string {
+	if ver == 2 && path == "" {
+		// the empty v2 input has no tokens yet; the first token starts the string
+		return tok
+	}
+	return path + "/" + tok
+}
+
+// explore runs the breadth-first search of one configuration.
+func explore(r *ev.Run, G *gprops, gs *gstats, cfg graphCfg) gresult {
+	var res gresult
+	seen := sync.Map{}
+	type node struct{ path string }
+	key := func(recv any, m *lang.Model) [16]byte {
+		h := sha256.Sum256([]byte(fmt.Sprintf("%s|%v|%v", dump.Of(recv), m.Deferred, m.InOrder || cfg.ver == 3)))
+		var k [16]byte
+		copy(k[:], h[:16])
+		return k
+	}
+	var frontier []node
+	for _, s := range cfg.starts {
+		recv, _ := judge(r, G, gs, cfg.ver, cfg.level, s)
+		m := lang.Scan(cfg.ver, cfg.level, splitPath(cfg.ver, s))
+		if _, dup := seen.LoadOrStore(key(recv, &m), true); !dup {
+			frontier = append(frontier, node{s})
+			res.states++
+			if G.total {
+				nilReceiver(r, cfg.ver, cfg.level, s)
+			}
+		}
+	}
+	for len(frontier) > 0 {
+		res.depth++
+		var mu sync.Mutex
+		var next []node
+		safeParallel(r, len(frontier), func(i int) {
+			n := frontier[i]
+			var local []node
+			var lt, lacc, lterm, lbound, lstates int64
+			for _, t := range cfg.alphabet {
+				s := appendTok(cfg.ver, n.path, t.text)
+				recv, acc := judge(r, G, gs, cfg.ver, cfg.level, s)
+				lt++
+				if acc {
+					lacc++
+				}
+				m := lang.Scan(cfg.ver, cfg.level, splitPath(cfg.ver, s))
+				if m.Aborted {
+					lterm++
+					continue // the decoder stopped at this token: terminal
+				}
+				if _, dup := seen.LoadOrStore(key(recv, &m), true); dup {
+					continue
+				}
+				lstates++
+				if G.total {
+					nilReceiver(r, cfg.ver, cfg.level, s)
+				}
+				if !cfg.expand(&m) {
+					lbound++
+					continue
+				}
+				local = append(local, node{s})
+			}
+			atomic.AddInt64(&res.transitions, lt)
+			atomic.AddInt64(&res.accepting, lacc)
+			atomic.AddInt64(&res.terminal, lterm)
+			atomic.AddInt64(&res.boundary, lbound)
+			atomic.AddInt64(&res.states, lstates)
+			mu.Lock()
+			next = append(next, local...)
+			mu.Unlock()
+		})
+		res.live += int64(len(frontier))
+		if res.depth == 3 && len(frontier) > 5 {
+			gs.sample.Do(func() { r.Sample(map[string]any{"graph": cfg.name, "state_reached_by": frontier[len(frontier)/2].path, "then_every_token_of_alphabet": len(cfg.alphabet)}) })
+		}
+		// deterministic order for reproducible shortest counterexamples
+		sort.Slice(next, func(i, j int) bool { return next[i].path < next[j].path })
+		frontier = next
+	}
+	return res
+}
+
+// nilReceiver: decoding through a nil receiver gives the same verdict as through a constructor
+// result (C12).
+func nilReceiver(r *ev.Run, ver, level int, s string) {
+	o1, e1, p1 := lib.Decode(lib.Nil(ver, level), s)
+	o2, e2, p2 := lib.DecodeNew(ver, level, s)
+	a := fmt.Sprintf("obj=%v err=%s panic=%q", o1 != nil, lib.Class(e1), p1)
+	b := fmt.Sprintf("obj=%v err=%s panic=%q", o2 != nil, lib.Class(e2), p2)
+	if a != b || p1 != "" {
+		r.Violate(ev.Violation{Kind: "nil-receiver-decode", Case: strCase(ver, level, s), Observed: a, Expected: b + " (as through a constructor result), no panic"})
+		return
+	}
+	if o1 != nil && o2 != nil && lib.Observe(o1) != lib.Observe(o2) {
+		r.Violate(ev.Violation{Kind: "nil-receiver-decode", Case: strCase(ver, level, s), Observed: lib.Observe(o1).String(), Expected: lib.Observe(o2).String()})
+	}
+}
+
+func addResult(r *ev.Run, name string, g gresult) {
+	r.Add("states", g.states)
+	r.Add("transitions", g.transitions)
+	r.Add("traces_validated_against_impl", g.transitions)
+	r.Add("live_states_expanded", g.live)
+	r.Add("accepting_transitions", g.accepting)
+	r.Add("terminal_transitions", g.terminal)
+	r.Add("boundary_states_not_expanded", g.boundary)
+	r.Set("graph_"+name, fmt.Sprintf("states=%d expanded=%d transitions=%d accepting=%d terminal=%d boundary=%d bfs_depth=%d", g.states, g.live, g.transitions, g.accepting, g.terminal, g.boundary, g.depth))
+}
+
+// ---------------------------------------------------------------------------------------------
+// configurations
+
+func baseVec(ver int, pick func(m *spec.Metric) string) map[string]string {
+	t := map[string]string{}
+	for _, m := range spec.At(ver, 0) {
+		m := m
+		t[m.Name] = pick(&m)
+	}
+	return t
+}
+
+func firstCode(m *spec.Metric) string { return m.Codes[0].Code }
+func lastCode(m *spec.Metric) string  { return m.Codes[len(m.Codes)-1].Code }
+func secondDefined(m *spec.Metric) string {
+	for _, c := range m.Codes[1:] {
+		if !c.ND {
+			return c.Code
+		}
+	}
+	return m.Codes[0].Code
+}
+func firstDefined(m *spec.Metric) string {
+	for _, c := range m.Codes {
+		if !c.ND {
+			return c.Code
+		}
+	}
+	return m.Codes[0].Code
+}
+
+func prefixV3(verLabel string, tok map[string]string, level int) string {
+	return canonicalWritten(3, level, verLabel, tok)
+}
+
+// subsetOf reports whether every seen token of the given level set equals ref's.
+func agrees(m *lang.Model, ver, level int, ref map[string]string) bool {
+	for _, d := range spec.At(ver, level) {
+		if c, ok := m.Seen[d.Name]; ok && c != ref[d.Name] {
+			return false
+		}
+	}
+	return true
+}
+
+func countLevel(m *lang.Model, ver, level int) int {
+	n := 0
+	for _, d := range spec.At(ver, level) {
+		if _, ok := m.Seen[d.Name]; ok {
+			n++
+		}
+	}
+	return n
+}
+
+// inRb: base part is empty, complete, or complete minus one metric, and agrees with c1 (or is
+// exactly c2).
+func inRb(m *lang.Model, ver int, c1, c2 map[string]string) bool {
+	nb := len(spec.At(ver, 0))
+	n := countLevel(m, ver, 0)
+	if n == 0 {
+		return true
+	}
+	if n == nb && agrees(m, ver, 0, c2) {
+		return true
+	}
+	return n >= nb-1 && agrees(m, ver, 0, c1)
+}
+
+// v3 base decoder: complete (all values, both versions).
+func cfgV3Base() graphCfg {
+	return graphCfg{name: "v3-base-complete", ver: 3, level: 0, starts: []string{"CVSS:3.0", "CVSS:3.1"}, alphabet: alphabet(3, 0),
+		expand: func(m *lang.Model) bool { return true }}
+}
+
+// v3 temporal decoder: temporal part complete x base part in R_b.
+func cfgV3Temporal(full bool) graphCfg {
+	c1, c2 := baseVec(3, firstCode), baseVec(3, lastCode)
+	starts := []string{"CVSS:3.0", "CVSS:3.1", prefixV3("3.1", c1, 0), prefixV3("3.0", c2, 0)}
+	if full {
+		starts = append(starts, prefixV3("3.0", c1, 0), prefixV3("3.1", c2, 0))
+	}
+	for _, d := range spec.At(3, 0) {
+		t := copyTok(c1)
+		delete(t, d.Name)
+		starts = append(starts, prefixV3("3.1", t, 0))
+	}
+	return graphCfg{name: "v3-temporal", ver: 3, level: 1, starts: starts, alphabet: alphabet(3, 1),
+		expand: func(m *lang.Model) bool { return inRb(m, 3, c1, c2) }}
+}
+
+// v3 environmental decoder: environmental part in {unseen, chosen value}^11 x temporal part in
+// R_t x base part in R_b.
+func cfgV3Env(full bool, withX bool) graphCfg {
+	c1, c2 := baseVec(3, firstCode), baseVec(3, lastCode)
+	tDef := map[string]string{}
+	for _, d := range spec.At(3, 1) {
+		d := d
+		tDef[d.Name] = firstDefined(&d)
+	}
+	chosen := map[string]string{}
+	for _, d := range spec.At(3, 2) {
+		d := d
+		chosen[d.Name] = firstDefined(&d)
+	}
+	name := "v3-environmental"
+	starts := []string{"CVSS:3.1", prefixV3("3.1", c1, 0), prefixV3("3.1", merge(c1, tDef), 1)}
+	t := copyTok(c1)
+	delete(t, "A")
+	starts = append(starts, prefixV3("3.1", t, 0))
+	if full {
+		starts = append(starts, "CVSS:3.0", prefixV3("3.0", c2, 0), prefixV3("3.0", merge(c2, map[string]string{"E": "X", "RL": "X", "RC": "X"}), 1))
+		for _, d := range spec.At(3, 0) {
+			t := copyTok(c1)
+			delete(t, d.Name)
+			starts = append(starts, prefixV3("3.0", t, 0))
+		}
+		for _, d := range spec.At(3, 1) {
+			starts = append(starts, prefixV3("3.1", merge(c1, map[string]string{d.Name: tDef[d.Name]}), 1))
+		}
+	}
+	if withX {
+		name = "v3-environmental-explicit-X"
+		starts = []string{prefixV3("3.1", c1, 0)}
+	}
+	return graphCfg{name: name, ver: 3, level: 2, starts: starts, alphabet: alphabet(3, 2),
+		expand: func(m *lang.Model) bool {
+			if !inRb(m, 3, c1, c2) {
+				return false
+			}
+			// temporal part: empty, all X, all defined, or a single defined one
+			nt := countLevel(m, 3, 1)
+			allX := true
+			for _, d := range spec.At(3, 1) {
+				if c, ok := m.Seen[d.Name]; ok && c != "X" {
+					allX = false
+				}
+			}
+			okT := nt == 0 || (nt == 3 && allX) || (agrees(m, 3, 1, tDef) && (nt == 3 || nt == 1))
+			if !okT {
+				return false
+			}
+			for _, d := range spec.At(3, 2) {
+				if c, ok := m.Seen[d.Name]; ok && c != chosen[d.Name] && !(withX && c == "X") {
+					return false
+				}
+			}
+			if withX && nt != 0 {
+				return false
+			}
+			if !full && countLevel(m, 3, 2) > 0 {
+				// quick: the environmental part is closed over a complete base vector c1 with the
+				// temporal part empty or completely defined
+				return countLevel(m, 3, 0) == 8 && agrees(m, 3, 0, c1) && (nt == 0 || (nt == 3 && !allX))
+			}
+			return true
+		}}
+}
+
+// v2 decoders: one value per metric (thorough: two for temporal/environmental), all seen-sets.
+func cfgV2(level int, two bool, full bool) graphCfg {
+	c1 := map[string]string{}
+	c2 := map[string]string{}
+	for _, d := range spec.UpTo(2, level) {
+		d := d
+		c1[d.Name] = firstCode(&d)
+		c2[d.Name] = secondDefined(&d)
+	}
+	starts := []string{""}
+	if !full && level == 2 {
+		b := lang.Project(2, 0, c1)
+		starts = append(starts, canonicalWritten(2, 0, "", b))
+		for _, d := range spec.At(2, 0) {
+			t := copyTok(b)
+			delete(t, d.Name)
+			starts = append(starts, canonicalWritten(2, 0, "", t))
+		}
+	}
+	return graphCfg{name: fmt.Sprintf("v2-%s", spec.LevelNames[level]), ver: 2, level: level, starts: starts, alphabet: alphabet(2, level),
+		expand: func(m *lang.Model) bool {
+			for k, c := range m.Seen {
+				if c == c1[k] {
+					continue
+				}
+				if two && spec.Find(2, k).Level > 0 && c == c2[k] {
+					continue
+				}
+				return false
+			}
+			if !full && level == 2 {
+				// quick: base part empty, complete or complete minus one metric
+				if n := countLevel(m, 2, 0); n != 0 && n < 5 {
+					return false
+				}
+			}
+			return true
+		}}
+}
+
+func graphConfigs(thorough bool, levels3, levels2 []int) []graphCfg {
+	var cs []graphCfg
+	for _, lv := range levels3 {
+		switch lv {
+		case 0:
+			cs = append(cs, cfgV3Base())
+		case 1:
+			cs = append(cs, cfgV3Temporal(thorough))
+		case 2:
+			cs = append(cs, cfgV3Env(thorough, false))
+			if thorough {
+				cs = append(cs, cfgV3Env(true, true))
+			}
+		}
+	}
+	for _, lv := range levels2 {
+		cs = append(cs, cfgV2(lv, thorough && lv > 0, thorough))
+	}
+	return cs
+}
+
+// runGraphs explores the configurations and records the results.
+func runGraphs(r *ev.Run, G *gprops, gs *gstats, cfgs []graphCfg) {
+	for _, c := range cfgs {
+		c := c
+		r.Phase("graph "+c.name, func() { addResult(r, c.name, explore(r, G, gs, c)) })
+	}
+}
+
+// graphC01: the complete v3 base decoder graph with the base-score oracle at every accepting
+// transition (every token order of every valid base vector is a path of this graph).
+func graphC01(r *ev.Run, thorough bool) {
+	G := &gprops{decOn: true, dec: props{scoreLevel: 0}}
+	gs := &gstats{}
+	runGraphs(r, G, gs, []graphCfg{cfgV3Base()})
+	permutationsV3(r, G, gs, []int{1, 2}, thorough)
+	r.Add("evaluations", atomic.LoadInt64(&gs.strings))
+	r.Set("strings_executed", atomic.LoadInt64(&gs.strings))
+	r.Set("strings_accepted", atomic.LoadInt64(&gs.accepted))
+	r.Set("rule", "explicit-state search of the real v3 base decoder over ALL values: states are reflective dumps of the decoder object after Decode(prefix) plus the deferred-error flag, every (state, token) transition of the token alphabet is executed on the real Decode; at every accepting transition Score() is compared with the exact rational oracle and Score()==0 iff C=I=A=N; plus all 2x2,592 canonical vectors through the three decoders and all 40,320 token orders of base vectors through the temporal and environmental decoders")
+}
+
+// ---------------------------------------------------------------------------------------------
+// stateless sets: every string executed independently, no merging
+
+func permute(xs []string, fn func([]string)) {
+	var rec func(k int)
+	rec = func(k int) {
+		if k == len(xs) {
+			fn(xs)
+			return
+		}
+		for i := k; i < len(xs); i++ {
+			xs[k], xs[i] = xs[i], xs[k]
+			rec(k + 1)
+			xs[k], xs[i] = xs[i], xs[k]
+		}
+	}
+	rec(0)
+}
+
+func tokensOf(ver, level int, tok map[string]string) []string {
+	var ts []string
+	for _, m := range spec.UpTo(ver, level) {
+		if c, ok := tok[m.Name]; ok {
+			ts = append(ts, m.Name+":"+c)
+		}
+	}
+	return ts
+}
+
+// permutationsV3: all 40,320 orders of the 8 base tokens x assignments x versions at the given
+// decoders; all orders of the temporal tokens at all positions; ordered selections of
+// environmental tokens.
+func permutationsV3(r *ev.Run, G *gprops, gs *gstats, decoders []int, thorough bool) {
+	assigns := []map[string]string{baseVec(3, firstCode), baseVec(3, lastCode)}
+	var jobs [][]string
+	for ai, a := range assigns {
+		for vi, verLabel := range spec.V3Versions {
+			if !thorough && ai != vi {
+				continue
+			}
+			toks := tokensOf(3, 0, a)
+			// shard by the first token
+			for i := range toks {
+				rest := append(append([]string{}, toks[:i]...), toks[i+1:]...)
+				jobs = append(jobs, append([]string{"CVSS:" + verLabel, toks[i]}, rest...))
+			}
+		}
+	}
+	safeParallel(r, len(jobs), func(i int) {
+		j := jobs[i]
+		rest := append([]string{}, j[2:]...)
+		permute(rest, func(p []string) {
+			s := j[0] + "/" + j[1] + "/" + strings.Join(p, "/")
+			for _, d := range decoders {
+				judge(r, G, gs, 3, d, s)
+			}
+		})
+	})
+	if !inInts(decoders, 1) && !inInts(decoders, 2) {
+		return
+	}
+	// temporal tokens in all orders at all positions of a base vector; environmental selections
+	c1 := baseVec(3, firstCode)
+	bt := tokensOf(3, 0, c1)
+	tt := []string{"E:F", "RL:W", "RC:R"}
+	et := []string{"CR:H", "IR:L", "AR:M", "MAV:P", "MAC:H", "MPR:N", "MUI:R", "MS:C", "MC:N", "MI:L", "MA:H"}
+	var strs []string
+	permute(append([]string{}, tt...), func(p []string) {
+		for a := 0; a <= len(bt); a++ {
+			for b := a; b <= len(bt); b++ {
+				for c := b; c <= len(bt); c++ {
+					seq := []string{}
+					for i := 0; i <= len(bt); i++ {
+						if i == a {
+							seq = append(seq, p[0])
+						}
+						if i == b {
+							seq = append(seq, p[1])
+						}
+						if i == c {
+							seq = append(seq, p[2])
+						}
+						if i < len(bt) {
+							seq = append(seq, bt[i])
+						}
+					}
+					strs = append(strs, "CVSS:3.1/"+strings.Join(seq, "/"))
+				}
+			}
+		}
+	})
+	sel := 3
+	if thorough {
+		sel = 4
+	}
+	var recSel func(cur []string, used uint)
+	recSel = func(cur []string, used uint) {
+		if len(cur) > 0 {
+			// selections placed before, inside and after the base vector
+			strs = append(strs, "CVSS:3.0/"+strings.Join(append(append([]string{}, bt...), cur...), "/"))
+			strs = append(strs, "CVSS:3.0/"+strings.Join(append(append([]string{}, cur...), bt...), "/"))
+			strs = append(strs, "CVSS:3.0/"+strings.Join(append(append(append([]string{}, bt[:4]...), cur...), bt[4:]...), "/"))
+		}
+		if len(cur) == sel {
+			return
+		}
+		for i, e := range et {
+			if used&(1<<uint(i)) == 0 {
+				recSel(append(append([]string{}, cur...), e), used|1<<uint(i))
+			}
+		}
+	}
+	recSel(nil, 0)
+	safeParallel(r, 64, func(sh int) {
+		for i := sh; i < len(strs); i += 64 {
+			for _, d := range decoders {
+				if d >= 1 {
+					judge(r, G, gs, 3, d, strs[i])
+				}
+			}
+		}
+	})
+}
+
+func inInts(xs []int, x int) bool {
+	for _, y := range xs {
+		if y == x {
+			return true
+		}
+	}
+	return false
+}
+
+// permutationsV2: all orders within each group, all group orders.
+func permutationsV2(r *ev.Run, G *gprops, gs *gstats) {
+	full := map[string]string{}
+	for _, d := range spec.V2 {
+		d := d
+		full[d.Name] = firstCode(&d)
+	}
+	g0, g1, g2 := tokensOf(2, 0, lang.Project(2, 0, full)), []string{"E:U", "RL:OF", "RC:UC"}, []string{"CDP:N", "TD:N", "CR:L", "IR:L", "AR:L"}
+	var strs []string
+	permute(append([]string{}, g0...), func(p []string) {
+		strs = append(strs, strings.Join(p, "/"), strings.Join(append(append([]string{}, p...), g1...), "/"), strings.Join(append(append(append([]string{}, p...), g1...), g2...), "/"))
+	})
+	permute(append([]string{}, g1...), func(p []string) {
+		strs = append(strs, strings.Join(append(append([]string{}, g0...), p...), "/"), strings.Join(append(append(append([]string{}, g0...), p...), g2...), "/"))
+	})
+	permute(append([]string{}, g2...), func(p []string) {
+		strs = append(strs, strings.Join(append(append([]string{}, g0...), p...), "/"), strings.Join(append(append(append([]string{}, g0...), g1...), p...), "/"))
+	})
+	groups := [][]string{g0, g1, g2}
+	permute([]string{"0", "1", "2"}, func(p []string) {
+		var seq []string
+		for _, g := range p {
+			seq = append(seq, groups[g[0]-'0']...)
+		}
+		strs = append(strs, strings.Join(seq, "/"))
+	})
+	safeParallel(r, 16, func(sh int) {
+		for i := sh; i < len(strs); i += 16 {
+			for d := 0; d < 3; d++ {
+				judge(r, G, gs, 2, d, strs[i])
+			}
+		}
+	})
+}
+
+// shortSequences: all token sequences of length <= n over the full alphabet appended to
+// {empty, c1}.
+func shortSequences(r *ev.Run, G *gprops, gs *gstats, ver, level, n int) {
+	a := alphabet(ver, level)
+	var prefixes []string
+	if ver == 3 {
+		prefixes = []string{"CVSS:3.1", prefixV3("3.0", baseVec(3, firstCode), 0)}
+	} else {
+		prefixes = []string{"", canonicalWritten(2, 0, "", baseVec(2, firstCode))}
+	}
+	for _, p := range prefixes {
+		p := p
+		safeParallel(r, len(a), func(i int) {
+			var rec func(s string, depth int)
+			rec = func(s string, depth int) {
+				judge(r, G, gs, ver, level, s)
+				if depth == n {
+					return
+				}
+				for _, t := range a {
+					rec(appendTok(ver, s, t.text), depth+1)
+				}
+			}
+			rec(appendTok(ver, p, a[i].text), 1)
+		})
+	}
+}
+
+// ---------------------------------------------------------------------------------------------
+// EDIT ball: character-level neighbourhood of seed vectors, and all short byte strings
+
+var editSigma = []byte("CVS:/.301AHLNPRUXMOTWFEID avn\x00\xff")
+
+func seeds(ver int) []string {
+	if ver == 3 {
+		return []string{
+			"CVSS:3.1/AV:N/AC:L/PR:N/UI:R/S:C/C:H/I:L/A:N",
+			"CVSS:3.0/AV:P/AC:H/PR:H/UI:N/S:U/C:N/I:N/A:H/E:F/RL:W/RC:R",
+			"CVSS:3.1/AV:A/AC:H/PR:L/UI:N/S:C/C:L/I:H/A:L/E:P/RL:O/RC:U/CR:L/IR:M/AR:L/MAV:P/MAC:L/MPR:L/MUI:R/MS:C/MC:H/MI:H/MA:H",
+		}
+	}
+	return []string{
+		"AV:N/AC:L/Au:N/C:N/I:P/A:C",
+		"AV:L/AC:M/Au:S/C:N/I:N/A:P/E:POC/RL:TF/RC:C",
+		"AV:N/AC:L/Au:N/C:N/I:N/A:C/E:F/RL:OF/RC:C/CDP:H/TD:H/CR:M/IR:M/AR:H",
+		"AV:A/AC:L/Au:N/C:C/I:C/A:C/CDP:H/TD:H/CR:L/IR:ND/AR:ND",
+	}
+}
+
+// edits1 returns all strings at character edit distance <= 1 over sigma plus token-level edits.
+func edits1(s string, sigma []byte, tokenLevel bool) []string {
+	out := map[string]bool{s: true}
+	for i := 0; i <= len(s); i++ {
+		for _, c := range sigma {
+			out[s[:i]+string(c)+s[i:]] = true
+		}
+		if i < len(s) {
+			out[s[:i]+s[i+1:]] = true
+			for _, c := range sigma {
+				out[s[:i]+string(c)+s[i+1:]] = true
+			}
+			if i+1 < len(s) {
+				out[s[:i]+string(s[i+1])+string(s[i])+s[i+2:]] = true
+			}
+		}
+	}
+	if tokenLevel {
+		toks := strings.Split(s, "/")
+		for i := range toks {
+			drop := append(append([]string{}, toks[:i]...), toks[i+1:]...)
+			out[strings.Join(drop, "/")] = true
+			for j := range toks {
+				dup := append(append(append([]string{}, toks[:j]...), toks[i]), toks[j:]...)
+				out[strings.Join(dup, "/")] = true
+				sw := append([]string{}, toks...)
+				sw[i], sw[j] = sw[j], sw[i]
+				out[strings.Join(sw, "/")] = true
+				mv := append(append([]string{}, toks[:i]...), toks[i+1:]...)
+				if j <= len(mv) {
+					mv2 := append(append(append([]string{}, mv[:j]...), toks[i]), mv[j:]...)
+					out[strings.Join(mv2, "/")] = true
+				}
+			}
+		}
+	}
+	r := make([]string, 0, len(out))
+	for k := range out {
+		r = append(r, k)
+	}
+	sort.Strings(r)
+	return r
+}
+
+func editBall(r *ev.Run, G *gprops, gs *gstats, vers []int, thorough bool) {
+	for _, ver := range vers {
+		for si, seed := range seeds(ver) {
+			e1 := edits1(seed, editSigma, true)
+			safeParallel(r, 64, func(sh int) {
+				for i := sh; i < len(e1); i += 64 {
+					for d := 0; d < 3; d++ {
+						judge(r, G, gs, ver, d, e1[i])
+					}
+				}
+			})
+			r.Add("edit_distance_1_strings", int64(len(e1)))
+			// distance 2: full alphabet for the base-level seed (thorough), reduced otherwise
+			sigma2 := []byte(":/ X")
+			if si == 0 && thorough {
+				sigma2 = editSigma
+			}
+			if si > 0 && !thorough {
+				continue
+			}
+			var n2 int64
+			safeParallel(r, len(e1), func(i int) {
+				for _, s2 := range edits1(e1[i], sigma2, false) {
+					for d := 0; d < 3; d++ {
+						judge(r, G, gs, ver, d, s2)
+					}
+					atomic.AddInt64(&n2, 1)
+				}
+			})
+			r.Add("edit_distance_2_strings", n2)
+		}
+	}
+}
+
+// shortStrings: every byte string of length <= n over a 12-byte alphabet at all six decoders.
+func shortStrings(r *ev.Run, G *gprops, gs *gstats, vers []int, n int) {
+	sigma := []byte("CVS:/3.1AN a")
+	var cnt int64
+	safeParallel(r, len(sigma)*len(sigma), func(k int) {
+		buf := make([]byte, 0, n)
+		var rec func(depth int)
+		rec = func(depth int) {
+			s := string(buf)
+			for _, ver := range vers {
+				for d := 0; d < 3; d++ {
+					judge(r, G, gs, ver, d, s)
+				}
+			}
+			atomic.AddInt64(&cnt, 1)
+			if depth == n {
+				return
+			}
+			for _, c := range sigma {
+				buf = append(buf, c)
+				rec(depth + 1)
+				buf = buf[:len(buf)-1]
+			}
+		}
+		if n >= 2 {
+			buf = append(buf, sigma[k/len(sigma)], sigma[k%len(sigma)])
+			rec(2)
+		}
+	})
+	// lengths 0 and 1
+	for _, s := range append([]string{""}, strings.Split(string(sigma), "")...) {
+		for _, ver := range vers {
+			for d := 0; d < 3; d++ {
+				judge(r, G, gs, ver, d, s)
+			}
+		}
+		cnt++
+	}
+	r.Add("short_byte_strings", cnt)
+}
+
+// longInputs: a fixed list of structured 1 MiB inputs (length independence itself rests on the
+// closure of the graph).
+func longInputs(r *ev.Run, G *gprops, gs *gstats, vers []int) {
+	big := 1 << 20
+	for _, ver := range vers {
+		valid := seeds(ver)[0]
+		ins := []string{
+			strings.Repeat("/", big), strings.Repeat(":", big), strings.Repeat("A", big),
+			valid + strings.Repeat("/ZZ:N", 100000), valid + "/" + strings.Repeat("AV:N/", 100000),
+			strings.Repeat("CVSS:3.1/", big/9), valid + "/E:" + strings.Repeat("X", big),
+		}
+		for _, s := range ins {
+			for d := 0; d < 3; d++ {
+				judge(r, G, gs, ver, d, s)
+			}
+		}
+		r.Add("long_inputs", int64(len(ins)*3))
+	}
+}
+
+func finishGraphStats(r *ev.Run, gs *gstats) {
+	r.Set("strings_executed", atomic.LoadInt64(&gs.strings))
+	r.Set("strings_accepted", atomic.LoadInt64(&gs.accepted))
+	r.Set("strings_rejected", atomic.LoadInt64(&gs.rejected))
+	cl := map[string]int64{}
+	gs.classes.Range(func(k, v any) bool { cl[k.(string)] = atomic.LoadInt64(v.(*int64)); return true })
+	r.Set("error_classes_observed", cl)
+	r.Set("distinct_error_classes", int64(len(cl)))
+	r.Set("evaluations", atomic.LoadInt64(&gs.strings))
+	if n := atomic.LoadInt64(&gs.leftBehind); n > 0 {
+		r.Set("distinct_objects_left_behind_by_failed_decodes", n)
+	}
+}
